@@ -194,10 +194,15 @@ func (g *Generator) AdjustAnnotations(annotations map[string]string) error {
 	if annotations, err = g.filterAnnotations(annotations); err != nil {
 		return err
 	}
-	for k, v := range annotations {
+	// Apply removals first, then sets: a key both removed and set within one
+	// adjustment must end up set regardless of map iteration order.
+	for k := range annotations {
 		if key, marked := nri.IsMarkedForRemoval(k); marked {
 			g.RemoveAnnotation(key)
-		} else {
+		}
+	}
+	for k, v := range annotations {
+		if _, marked := nri.IsMarkedForRemoval(k); !marked {
 			g.AddAnnotation(k, v)
 		}
 	}
